@@ -156,7 +156,10 @@ def main():
                 "replay_cmd_template": f"./check {pid} --replay {{path}}",
                 "engine": "vq",
                 "level_claimed": {"category": cat, "text": text, "design_ref": "DESIGN.md section " + ref},
-                "level_note": note,
+                "level_note": note + " Workload classes follow the standing rules 1-18 of DESIGN.md section 7 (scales, exact and NEAR coincidences, "
+                              "shapes and size ladder, layouts, histories on the caller's own objects, call forms, storage forms, structured inputs, "
+                              "small-but-legitimate data, worst-case constructions, concurrent callers); evidence/<id>.json lists the classes and clause "
+                              "counts actually observed.",
                 "technique": tech,
             })
         else:
@@ -181,7 +184,7 @@ def main():
         }],
         "checks": checks,
         "not_applicable": na,
-        "notes": "Runtime monitoring only (no sanitizers: pure-Python, single-threaded target). Exit 0 held / 1 VIOLATION / 3 INCONCLUSIVE. "
+        "notes": "Runtime monitoring only (no compiler sanitizers: pure-Python target without threads of its own; C06 / C14 drive four concurrent callers from the harness). Exit 0 held / 1 VIOLATION / 3 INCONCLUSIVE. "
                  "Genuine defects repaired by fix: commits are recorded in known_findings.json ('fixed' entries suppress nothing).",
     }
     p = os.path.join(HERE, "MANIFEST.json")
